@@ -1501,6 +1501,13 @@ def run(ctx):
 
 def replay(ctx, case):
     sys.path.insert(0, os.path.join(ctx.verif, "translate"))
+    import t_val
+    try:
+        # the model of the replay is the model of the tree replayed against (as in run())
+        coq_text, _ = t_val.translate(ctx.repo)
+        t_val.write_if_changed(os.path.join(ctx.verif, "coq", "gen", "Validate.v"), coq_text)
+    except t_val.TranslateError as ex:
+        print("translator cannot read this tree (%s): the model line below is the one of the last tree that translated" % str(ex)[:200])
     mexe = ctx.extract()
     exe = build_harness(ctx, sanitize=False)()
     load_tables(ctx, mexe)                  # sets DOC: model_line hands a computed bound over exactly (exactify)
